@@ -355,7 +355,9 @@ func overlapped(ops []porcupine.Operation) bool {
 // c19Mix runs the mix `rounds` times; any non-linearizable history is a violation.
 func c19Mix(mx *cMix, rounds int) (sig, msg string, overlaps, unknown int) {
 	for r := 0; r < rounds; r++ {
+		hangEnter([]string{"C19"}, mx.Target+"/operations-never-return", "mix", mx, "a generated mix of concurrent operations on the "+mx.Target)
 		ops := runMix(mx)
+		hangLeave()
 		if overlapped(ops) {
 			overlaps++
 		}
@@ -383,6 +385,8 @@ func c19Mix(mx *cMix, rounds int) (sig, msg string, overlaps, unknown int) {
 //   - an observer that sees key i GONE during the removal phase knows keys 0..i are all removed (nothing is inserted
 //     any more), so the length it reads next is at most n-(i+1).
 func c19Monotone(target string, n int, observers int) (string, string, int) {
+	hangEnter([]string{"C19"}, target+"/operations-never-return", "monotone", map[string]interface{}{"target": target, "keys": n, "observers": observers}, "a writer/observer run on the "+target)
+	defer hangLeave()
 	mm := container.NewMutexMap()
 	fc := builtInFunctions.NewBuiltInFunctionContainer()
 	key := func(i int) string { return fmt.Sprintf("k%03d", i) }
@@ -569,61 +573,50 @@ type liveCase struct {
 	Epochs  []uint32   `json:"epochs"`
 }
 
-func liveCharge(g map[string]uint64, fn string, args [][]byte) uint64 {
-	total := uint64(0)
-	for _, a := range args {
-		total += uint64(len(a))
-	}
-	switch fn {
-	case refBuiltInFunctionSaveKeyValue:
-		return g["SaveKeyValue"] + total*g["PersistPerByte"] + uint64(len(args[1]))*g["StorePerByte"]
-	case refBuiltInFunctionESDTNFTCreate:
-		return g["ESDTNFTCreate"] + total*g["StorePerByte"]
-	case refBuiltInFunctionESDTNFTAddURI:
-		return g["ESDTNFTAddURI"] + uint64(len(args[2]))*g["StorePerByte"]
-	case refBuiltInFunctionESDTNFTUpdateAttributes:
-		return g["ESDTNFTUpdateAttributes"] + uint64(len(args[2]))*g["StorePerByte"]
-	case refBuiltInFunctionESDTLocalMint:
-		return g["ESDTLocalMint"]
-	case refBuiltInFunctionESDTLocalBurn:
-		return g["ESDTLocalBurn"]
-	case refBuiltInFunctionESDTBurn:
-		return g["ESDTBurn"]
-	case refBuiltInFunctionESDTNFTAddQuantity:
-		return g["ESDTNFTAddQuantity"]
-	case refBuiltInFunctionESDTNFTBurn:
-		return g["ESDTNFTBurn"]
-	case refBuiltInFunctionESDTTransfer:
-		return g["ESDTTransfer"]
-	case refBuiltInFunctionSetUserName:
-		return g["SaveUserName"]
-	case refBuiltInFunctionChangeOwnerAddress:
-		return g["ChangeOwnerAddress"]
-	case refBuiltInFunctionClaimDeveloperRewards:
-		return g["ClaimDeveloperRewards"]
-	}
-	return 0
-}
-
-// c19Live: every goroutine works on accounts and tokens of its own, so WHETHER each of its operations succeeds must not
-// depend on what the other goroutines, the schedule flipper or the notifier do: the outcomes are compared with a
-// sequential baseline run of the same operation lists (no statement demands that an operation succeeds).
 // counters for the evidence: concurrent executions with GasProvided between the two schedules' charges, and how many of
 // them were admitted (ran under the cheap schedule)
 var liveTightOps, liveTightAdmitted int64
 
+// kinds whose success or failure cannot influence what a LATER operation of the same goroutine is charged or whether it
+// succeeds (they touch nonce 1, unique keys, fungible balances or account fields only); only these get tight gas,
+// because a tight operation may legitimately fail in the concurrent run while it succeeds in the baselines
+var liveTightSafe = map[string]bool{"skv": true, "create": true, "adduri": true, "update": true, "mint": true, "localburn": true, "burn": true,
+	"addq": true, "nftburn": true, "transfer": true, "setusername": true, "changeowner": true, "claim": true, "transfer-call": true}
+
+type liveObs struct {
+	fn                  string
+	consumed            uint64
+	provided, remaining uint64
+	tight               bool
+	ok                  bool
+	err                 error
+	pan                 interface{}
+}
+
+// c19Live: every goroutine works on accounts and tokens of its own, so WHETHER each of its operations succeeds and WHAT
+// it is charged must not depend on what the other goroutines, the schedule flipper or the notifier do.  The same
+// operation lists are first run alone under schedule A and alone under schedule B (two sequential baselines); in the
+// concurrent run every successful execution must consume exactly what it consumed under A or under B - a whole charge by
+// one schedule, whatever the function - and (operations with ample gas) succeed exactly when it did in the baselines.
 func c19Live(lc *liveCase) (string, string, int) {
-	base, sig, msg, _ := c19LiveRun(lc, false, nil)
+	baseA, sig, msg, _ := c19LiveRun(lc, "A", nil, nil)
 	if sig != "" {
-		return "live/baseline/" + sig, "sequential baseline run: " + msg, 0
+		return "live/baseline/" + sig, "sequential baseline run under schedule A: " + msg, 0
 	}
-	_, sig, msg, n := c19LiveRun(lc, true, base)
+	baseB, sig, msg, _ := c19LiveRun(lc, "B", nil, nil)
+	if sig != "" {
+		return "live/baseline/" + sig, "sequential baseline run under schedule B: " + msg, 0
+	}
+	hangEnter([]string{"C19"}, "live/executions-never-return", "live", lc, "concurrent executions under reconfiguration")
+	defer hangLeave()
+	_, sig, msg, n := c19LiveRun(lc, "concurrent", baseA, baseB)
 	return sig, msg, n
 }
 
-func c19LiveRun(lc *liveCase, concurrent bool, baseline [][]bool) ([][]bool, string, string, int) {
+func c19LiveRun(lc *liveCase, mode string, baseA, baseB [][]liveObs) ([][]liveObs, string, string, int) {
+	concurrent := mode == "concurrent"
 	gasA, gasB := DistinctGas(1), DistinctGas(1)
-	// B differs from A in every entry and is not a multiple of it
+	// B differs from A in every entry, is dearer everywhere and is not a multiple of it
 	i := uint64(0)
 	for _, sect := range []string{refBaseOperationCostSection, refBuiltInCostSection} {
 		names := baseCostNames
@@ -635,9 +628,14 @@ func c19LiveRun(lc *liveCase, concurrent bool, baseline [][]bool) ([][]bool, str
 			gasB[sect][n] = gasA[sect][n]*1000 + 7*i + 1
 		}
 	}
-	fa, fb := flattenGas(gasA), flattenGas(gasB)
 	dns := scAddr(0, 0)
-	sh, err := NewShard(ShardConfig{NShards: 1, Self: 0, Gas: gasA, ActivationEpoch: 1, DNS: []HB{HB(dns)}, EnableNameChange: true})
+	start0 := gasA
+	if mode == "B" {
+		start0 = gasB
+	}
+	// two shards: the goroutines' accounts live on shard 0, so transfers to shard-1 addresses are sender-side executions
+	// that price the copied NFT payload
+	sh, err := NewShard(ShardConfig{NShards: 2, Self: 0, Gas: start0, ActivationEpoch: 1, DNS: []HB{HB(dns)}, EnableNameChange: true})
 	if err != nil {
 		return nil, "live/factory", err.Error(), 0
 	}
@@ -651,20 +649,24 @@ func c19LiveRun(lc *liveCase, concurrent bool, baseline [][]bool) ([][]bool, str
 		}
 		return nil
 	}
-	type priv struct{ a, b, sc, ftok, ntok []byte }
+	type priv struct{ a, b, sc, remote, remoteSC, ftok, ntok []byte }
 	ps := make([]priv, nthreads)
 	for t := 0; t < nthreads; t++ {
-		p := priv{a: userAddr(2*t, 0), b: userAddr(2*t+1, 0), sc: scAddr(1+t, 0), ftok: []byte(fmt.Sprintf("FT%02d-aaaaaa", t)), ntok: []byte(fmt.Sprintf("NT%02d-bbbbbb", t))}
+		p := priv{a: userAddr(2*t, 0), b: userAddr(2*t+1, 0), sc: scAddr(1+t, 0), remote: userAddr(2*t, 1), remoteSC: scAddr(1+t, 1),
+			ftok: []byte(fmt.Sprintf("FT%02d-aaaaaa", t)), ntok: []byte(fmt.Sprintf("NT%02d-bbbbbb", t))}
 		ps[t] = p
 		// a contract of the goroutine's own, owned by its first account, with developer rewards to claim
 		sca := sh.get(p.sc)
 		sca.Owner = cp(p.a)
 		sca.Reward = new(big.Int).Lsh(big.NewInt(1), 80)
+		big40 := new(big.Int).Lsh(big.NewInt(1), 40).Bytes()
 		setup := []*Call{
 			{Fn: refBuiltInFunctionESDTTransfer, Caller: sys, Rcv: p.a, Args: hbs(p.ftok, new(big.Int).Lsh(big.NewInt(1), 60).Bytes())},
 			{Fn: refBuiltInFunctionSetESDTRole, Caller: sys, Rcv: p.a, Args: hbs(p.ftok, []byte(refESDTRoleLocalMint), []byte(refESDTRoleLocalBurn))},
 			{Fn: refBuiltInFunctionSetESDTRole, Caller: sys, Rcv: p.a, Args: hbs(p.ntok, []byte(refESDTRoleNFTCreate), []byte(refESDTRoleNFTAddQuantity), []byte(refESDTRoleNFTBurn), []byte(refESDTRoleNFTAddURI), []byte(refESDTRoleNFTUpdateAttributes))},
-			{Fn: refBuiltInFunctionESDTNFTCreate, Caller: p.a, Rcv: p.a, Gas: ampleGas, Args: hbs(p.ntok, new(big.Int).Lsh(big.NewInt(1), 40).Bytes(), []byte("n"), []byte{}, []byte("h"), []byte{}, []byte("u"))},
+			// nonce 1: the piece that is updated, added to and burnt; nonce 2: the pieces that travel
+			{Fn: refBuiltInFunctionESDTNFTCreate, Caller: p.a, Rcv: p.a, Gas: ampleGas, Args: hbs(p.ntok, big40, []byte("n"), []byte{}, []byte("h"), []byte{}, []byte("u"))},
+			{Fn: refBuiltInFunctionESDTNFTCreate, Caller: p.a, Rcv: p.a, Gas: ampleGas, Args: hbs(p.ntok, big40, []byte("travels"), []byte{}, []byte("h2"), []byte("some attributes"), []byte("u1"), []byte("u2"))},
 		}
 		for _, c := range setup {
 			if err := must(c); err != nil {
@@ -672,22 +674,14 @@ func c19LiveRun(lc *liveCase, concurrent bool, baseline [][]bool) ([][]bool, str
 			}
 		}
 	}
-	sh.tracking, sh.concurrent = false, true
-	type obs struct {
-		fn                  string
-		consumed            uint64
-		a, b                uint64
-		provided, remaining uint64
-		tight               bool
-		err                 error
-		pan                 interface{}
-	}
-	results := make([][]obs, nthreads)
+	sh.tracking, sh.concurrent = false, concurrent
+	results := make([][]liveObs, nthreads)
 	start := make(chan struct{})
 	var wg sync.WaitGroup
 	var stop int32
 	runThread := func(t int) {
 		p := ps[t]
+		one, two := []byte{1}, []byte{2}
 		for j, op := range lc.Threads[t] {
 			blob := make([]byte, op.Size)
 			for x := range blob {
@@ -698,29 +692,45 @@ func c19LiveRun(lc *liveCase, concurrent bool, baseline [][]bool) ([][]bool, str
 			case "skv":
 				c = &Call{Fn: refBuiltInFunctionSaveKeyValue, Caller: p.a, Rcv: p.a, Args: hbs([]byte(fmt.Sprintf("key-%d-%d", t, j)), append([]byte("v"), blob...))}
 			case "create":
-				c = &Call{Fn: refBuiltInFunctionESDTNFTCreate, Caller: p.a, Rcv: p.a, Args: hbs(p.ntok, []byte{1}, blob, []byte{}, []byte("h"), blob, []byte("u"))}
+				c = &Call{Fn: refBuiltInFunctionESDTNFTCreate, Caller: p.a, Rcv: p.a, Args: hbs(p.ntok, one, blob, []byte{}, []byte("h"), blob, []byte("u"))}
 			case "adduri":
-				c = &Call{Fn: refBuiltInFunctionESDTNFTAddURI, Caller: p.a, Rcv: p.a, Args: hbs(p.ntok, []byte{1}, append([]byte("u"), blob...))}
+				c = &Call{Fn: refBuiltInFunctionESDTNFTAddURI, Caller: p.a, Rcv: p.a, Args: hbs(p.ntok, one, append([]byte("u"), blob...))}
 			case "update":
-				c = &Call{Fn: refBuiltInFunctionESDTNFTUpdateAttributes, Caller: p.a, Rcv: p.a, Args: hbs(p.ntok, []byte{1}, append([]byte("a"), blob...))}
+				c = &Call{Fn: refBuiltInFunctionESDTNFTUpdateAttributes, Caller: p.a, Rcv: p.a, Args: hbs(p.ntok, one, append([]byte("a"), blob...))}
 			case "mint":
-				c = &Call{Fn: refBuiltInFunctionESDTLocalMint, Caller: p.a, Rcv: p.a, Args: hbs(p.ftok, []byte{1})}
+				c = &Call{Fn: refBuiltInFunctionESDTLocalMint, Caller: p.a, Rcv: p.a, Args: hbs(p.ftok, one)}
 			case "localburn":
-				c = &Call{Fn: refBuiltInFunctionESDTLocalBurn, Caller: p.a, Rcv: p.a, Args: hbs(p.ftok, []byte{1})}
+				c = &Call{Fn: refBuiltInFunctionESDTLocalBurn, Caller: p.a, Rcv: p.a, Args: hbs(p.ftok, one)}
 			case "burn":
-				c = &Call{Fn: refBuiltInFunctionESDTBurn, Caller: p.a, Rcv: sys, Args: hbs(p.ftok, []byte{1})}
+				c = &Call{Fn: refBuiltInFunctionESDTBurn, Caller: p.a, Rcv: sys, Args: hbs(p.ftok, one)}
 			case "addq":
-				c = &Call{Fn: refBuiltInFunctionESDTNFTAddQuantity, Caller: p.a, Rcv: p.a, Args: hbs(p.ntok, []byte{1}, []byte{2})}
+				c = &Call{Fn: refBuiltInFunctionESDTNFTAddQuantity, Caller: p.a, Rcv: p.a, Args: hbs(p.ntok, one, two)}
 			case "nftburn":
-				c = &Call{Fn: refBuiltInFunctionESDTNFTBurn, Caller: p.a, Rcv: p.a, Args: hbs(p.ntok, []byte{1}, []byte{1})}
+				c = &Call{Fn: refBuiltInFunctionESDTNFTBurn, Caller: p.a, Rcv: p.a, Args: hbs(p.ntok, one, one)}
 			case "nfttransfer":
-				c = &Call{Fn: refBuiltInFunctionESDTNFTTransfer, Caller: p.a, Rcv: p.a, Args: hbs(p.ntok, []byte{1}, []byte{1}, p.b)}
+				c = &Call{Fn: refBuiltInFunctionESDTNFTTransfer, Caller: p.a, Rcv: p.a, Args: hbs(p.ntok, two, one, p.b)}
+			case "nft-xshard":
+				c = &Call{Fn: refBuiltInFunctionESDTNFTTransfer, Caller: p.a, Rcv: p.a, Args: hbs(p.ntok, two, one, p.remote)}
+			case "nft-call":
+				c = &Call{Fn: refBuiltInFunctionESDTNFTTransfer, Caller: p.a, Rcv: p.a, Args: hbs(p.ntok, two, one, p.sc, []byte("accept"), blob)}
+			case "nft-xshard-call":
+				c = &Call{Fn: refBuiltInFunctionESDTNFTTransfer, Caller: p.a, Rcv: p.a, Args: hbs(p.ntok, two, one, p.remoteSC, []byte("accept"), blob)}
 			case "multi":
-				c = &Call{Fn: refBuiltInFunctionMultiESDTNFTTransfer, Caller: p.a, Rcv: p.a, Args: hbs(p.b, []byte{2}, p.ftok, []byte{0}, []byte{1}, p.ntok, []byte{1}, []byte{1})}
+				c = &Call{Fn: refBuiltInFunctionMultiESDTNFTTransfer, Caller: p.a, Rcv: p.a, Args: hbs(p.b, two, p.ftok, []byte{0}, one, p.ntok, two, one)}
+			case "multi-xshard":
+				c = &Call{Fn: refBuiltInFunctionMultiESDTNFTTransfer, Caller: p.a, Rcv: p.a, Args: hbs(p.remote, two, p.ftok, []byte{0}, one, p.ntok, two, one)}
+			case "multi-call":
+				c = &Call{Fn: refBuiltInFunctionMultiESDTNFTTransfer, Caller: p.a, Rcv: p.a, Args: hbs(p.sc, two, p.ftok, []byte{0}, one, p.ntok, two, one, []byte("accept"), blob)}
+			case "multi-xshard-call":
+				c = &Call{Fn: refBuiltInFunctionMultiESDTNFTTransfer, Caller: p.a, Rcv: p.a, Args: hbs(p.remoteSC, two, p.ftok, []byte{0}, one, p.ntok, two, one, []byte("accept"), blob)}
+			case "transfer-call":
+				c = &Call{Fn: refBuiltInFunctionESDTTransfer, Caller: p.a, Rcv: p.sc, Args: hbs(p.ftok, one, []byte("accept"), blob)}
+			case "transfer-xshard":
+				c = &Call{Fn: refBuiltInFunctionESDTTransfer, Caller: p.a, Rcv: p.remote, Args: hbs(p.ftok, one)}
 			case "freeze":
-				c = &Call{Fn: refBuiltInFunctionESDTFreeze, Caller: sys, Rcv: p.b, Args: hbs(p.ntok)}
+				c = &Call{Fn: refBuiltInFunctionESDTFreeze, Caller: sys, Rcv: p.b, Args: hbs([]byte(fmt.Sprintf("ZZ%02d-dddddd", t)))}
 			case "unfreeze":
-				c = &Call{Fn: refBuiltInFunctionESDTUnFreeze, Caller: sys, Rcv: p.b, Args: hbs(p.ntok)}
+				c = &Call{Fn: refBuiltInFunctionESDTUnFreeze, Caller: sys, Rcv: p.b, Args: hbs([]byte(fmt.Sprintf("ZZ%02d-dddddd", t)))}
 			case "pause":
 				c = &Call{Fn: refBuiltInFunctionESDTPause, Caller: sys, Rcv: refSystemAccount, Args: hbs([]byte(fmt.Sprintf("XX%02d-cccccc", t)))}
 			case "unpause":
@@ -736,16 +746,18 @@ func c19LiveRun(lc *liveCase, concurrent bool, baseline [][]bool) ([][]bool, str
 			case "claim":
 				c = &Call{Fn: refBuiltInFunctionClaimDeveloperRewards, Caller: p.a, Rcv: p.sc}
 			case "wipe":
-				c = &Call{Fn: refBuiltInFunctionESDTWipe, Caller: sys, Rcv: p.b, Args: hbs(p.ntok)}
+				c = &Call{Fn: refBuiltInFunctionESDTWipe, Caller: sys, Rcv: p.b, Args: hbs([]byte(fmt.Sprintf("ZZ%02d-dddddd", t)))}
 			default:
-				c = &Call{Fn: refBuiltInFunctionESDTTransfer, Caller: p.a, Rcv: p.b, Args: hbs(p.ftok, []byte{1})}
+				c = &Call{Fn: refBuiltInFunctionESDTTransfer, Caller: p.a, Rcv: p.b, Args: hbs(p.ftok, one)}
 			}
 			c.Gas = ampleGas
-			o := obs{fn: c.Fn, a: liveCharge(fa, c.Fn, args2bytes(c.Args)), b: liveCharge(fb, c.Fn, args2bytes(c.Args))}
-			priced := o.a != 0
-			if op.Tight && priced && o.b > o.a {
-				c.Gas = o.b - 1
-				o.tight = true
+			o := liveObs{fn: c.Fn}
+			if concurrent && op.Tight && liveTightSafe[op.Kind] {
+				a, b := baseA[t][j], baseB[t][j]
+				if a.ok && b.ok && a.consumed > 0 && b.consumed > a.consumed {
+					c.Gas = b.consumed - 1
+					o.tight = true
+				}
 			}
 			o.provided = c.Gas
 			func() {
@@ -756,26 +768,22 @@ func c19LiveRun(lc *liveCase, concurrent bool, baseline [][]bool) ([][]bool, str
 				o.err = err
 				if err == nil && out != nil {
 					sh.nodeSave(c, snd, dst)
-				}
-				if out != nil {
+					o.ok = true
 					o.remaining = out.GasRemaining
-					o.consumed = c.Gas - out.GasRemaining
-					if !priced {
-						o.a, o.b = o.consumed, o.consumed // functions without a simple closed-form charge: race / success only
+					spent := out.GasRemaining
+					for _, oa := range out.OutputAccounts {
+						for _, ot := range oa.OutputTransfers {
+							spent += ot.GasLimit
+						}
+					}
+					o.consumed = c.Gas - spent
+					if spent > c.Gas {
+						o.remaining = spent // reported below as gas created
 					}
 				}
 			}()
 			results[t] = append(results[t], o)
 		}
-	}
-	outcomes := func() [][]bool {
-		out := make([][]bool, nthreads)
-		for t, rs := range results {
-			for _, o := range rs {
-				out[t] = append(out[t], o.err == nil && o.pan == nil)
-			}
-		}
-		return out
 	}
 	if !concurrent {
 		for t := 0; t < nthreads; t++ {
@@ -788,7 +796,7 @@ func c19LiveRun(lc *liveCase, concurrent bool, baseline [][]bool) ([][]bool, str
 				}
 			}
 		}
-		return outcomes(), "", "", 0
+		return results, "", "", 0
 	}
 	var execDone int32
 	var execWG sync.WaitGroup
@@ -854,27 +862,28 @@ func c19LiveRun(lc *liveCase, concurrent bool, baseline [][]bool) ([][]bool, str
 	for t, rs := range results {
 		for j, o := range rs {
 			n++
+			a, b := baseA[t][j], baseB[t][j]
 			if o.tight {
 				atomic.AddInt64(&liveTightOps, 1)
-				if o.err == nil {
+				if o.ok {
 					atomic.AddInt64(&liveTightAdmitted, 1)
 				}
 			}
 			if o.pan != nil {
 				return nil, "live/" + o.fn + "/panic", fmt.Sprintf("goroutine %d op %d (%s) panicked: %v", t, j, o.fn, o.pan), n
 			}
-			if o.err == nil && o.remaining > o.provided {
-				return nil, "live/" + o.fn + "/admitted-by-one-schedule-charged-by-another", fmt.Sprintf("goroutine %d op %d (%s) was given %d gas and returned GasRemaining %d: schedule A charges %d (covered), schedule B %d (not covered) - admitted under one, charged by the other", t, j, o.fn, o.provided, o.remaining, o.a, o.b), n
+			if o.ok && o.remaining > o.provided {
+				return nil, "live/" + o.fn + "/admitted-by-one-schedule-charged-by-another", fmt.Sprintf("goroutine %d op %d (%s) was given %d gas and returned GasRemaining + forwarded gas = %d: run alone it consumes %d under schedule A and %d under schedule B - admitted under one, charged by the other", t, j, o.fn, o.provided, o.remaining, a.consumed, b.consumed), n
 			}
-			if ok := o.err == nil; baseline != nil && !o.tight && ok != baseline[t][j] {
-				return nil, "live/" + o.fn + "/outcome-depends-on-concurrency", fmt.Sprintf("goroutine %d op %d (%s) on its private account: success=%v (error %v) under concurrent executions and reconfiguration, success=%v when the same operations run alone", t, j, o.fn, ok, o.err, baseline[t][j]), n
+			if !o.tight && a.ok == b.ok && o.ok != a.ok {
+				return nil, "live/" + o.fn + "/outcome-depends-on-concurrency", fmt.Sprintf("goroutine %d op %d (%s) on its private accounts: success=%v (error %v) under concurrent executions and reconfiguration, success=%v when the same operations run alone (under either schedule)", t, j, o.fn, o.ok, o.err, a.ok), n
 			}
-			if o.err == nil && o.consumed != o.a && o.consumed != o.b {
-				return nil, "live/" + o.fn + "/mixed-schedule-charge", fmt.Sprintf("goroutine %d op %d (%s) consumed %d gas: neither schedule A (%d) nor schedule B (%d) as a whole", t, j, o.fn, o.consumed, o.a, o.b), n
+			if o.ok && a.ok && b.ok && o.consumed != a.consumed && o.consumed != b.consumed {
+				return nil, "live/" + o.fn + "/mixed-schedule-charge", fmt.Sprintf("goroutine %d op %d (%s) consumed %d gas: run alone it consumes %d under schedule A and %d under schedule B - this is neither, i.e. a mixture", t, j, o.fn, o.consumed, a.consumed, b.consumed), n
 			}
 		}
 	}
-	return outcomes(), "", "", n
+	return results, "", "", n
 }
 
 func genLive(rt *rapid.T) *liveCase {
@@ -884,7 +893,8 @@ func genLive(rt *rapid.T) *liveCase {
 		k := rapid.IntRange(1, 40).Draw(rt, "live-nops")
 		ops := make([]liveOp, k)
 		for j := range ops {
-			ops[j] = liveOp{Kind: rapid.SampledFrom([]string{"skv", "create", "adduri", "update", "mint", "transfer", "skv", "create", "adduri", "update", "skv", "create", "adduri", "update", "localburn", "burn", "addq", "nftburn", "nfttransfer", "multi", "freeze", "unfreeze", "pause", "unpause", "setrole", "unsetrole", "adduri", "update", "setusername", "changeowner", "claim", "wipe", "setusername", "mint", "localburn", "burn", "addq", "nftburn", "transfer"}).Draw(rt, "live-kind"), Size: rapid.SampledFrom([]int{0, 1, 17, 200}).Draw(rt, "live-size"), Tight: rapid.IntRange(0, 2).Draw(rt, "live-tight") == 0}
+			ops[j] = liveOp{Kind: rapid.SampledFrom([]string{"skv", "create", "adduri", "update", "mint", "transfer", "skv", "create", "adduri", "update", "skv", "create", "adduri", "update", "localburn", "burn", "addq", "nftburn", "nfttransfer", "multi", "freeze", "unfreeze", "pause", "unpause", "setrole", "unsetrole", "adduri", "update", "setusername", "changeowner", "claim", "wipe", "setusername", "mint", "localburn", "burn", "addq", "nftburn", "transfer",
+				"nft-xshard", "nft-xshard", "nft-call", "nft-xshard-call", "multi-xshard", "multi-xshard", "multi-call", "multi-xshard-call", "transfer-call", "transfer-call", "transfer-xshard", "nfttransfer", "multi"}).Draw(rt, "live-kind"), Size: rapid.SampledFrom([]int{0, 1, 17, 200}).Draw(rt, "live-size"), Tight: rapid.IntRange(0, 2).Draw(rt, "live-tight") == 0}
 		}
 		lc.Threads = append(lc.Threads, ops)
 	}
